@@ -81,7 +81,7 @@ func collUnitsAllTypes(us *[]engine.Unit, cfg *engine.Config, seed uint64, confi
 func compoundUnits(us *[]engine.Unit, cfg *engine.Config, seed uint64, schemas int) {
 	for i := 0; i < schemas; i++ {
 		s := kinds.RandomSchema(rng.New(seed, 0xC0DEC, uint64(i)))
-		k := kinds.CompoundKind(s, i%2 == 0)
+		k := kinds.CompoundKindV(s, i%2 == 0, i%4 == 2)
 		if cfg.Prop == "C09" {
 			// the property is conditional on the codec contract: check it on the harness's own tuples first
 			name := k.Name + "/codec-contract"
